@@ -7,7 +7,7 @@ PROP = "C11"
 def run(tier, seed):
     hc = hcommon.HandlerCheck(PROP, tier, seed)
     hc.gate()
-    for case in sysprops.c11_cases(tier, hc.rng):
+    for case in hcommon.share(sysprops.c11_cases(tier, hc.rng)):
         case.run()
         for kind, ops, obs in case.sides:
             hc.add_trace(kind, ops, obs, label="reused / sibling handlers", describe=case.describe)
